@@ -3,6 +3,7 @@ package main
 // Static may-write analysis over SSA: which heap arrays a function may modify.
 
 import (
+	"go/constant"
 	"go/types"
 	"strings"
 
@@ -292,6 +293,18 @@ func (x *Run) modCall(cc *ssa.CallCommon, ms *ModSet, seen map[*ssa.Function]boo
 	}
 	pp := pkgPathOf(fn)
 	if pp == verifPkg {
+		if strings.HasPrefix(fn.Name(), "HavocExcept") {
+			// specification of unknown code with a stated frame
+			keep := constStringsOfVariadic(cc)
+			if !ms.Top {
+				ms.Preserves = keep
+			} else {
+				ms.Preserves = intersectStr(ms.Preserves, keep)
+			}
+			ms.Top = true
+			ms.starOnly = true
+			ms.Why = "HavocExcept in a specification function"
+		}
 		return
 	}
 	if con := x.spec.contractFor(fn.String()); con != nil && con.Modifies != nil {
@@ -405,4 +418,35 @@ func (ms *ModSet) setTop(why string) {
 	ms.Top = true
 	ms.Preserves = nil
 	ms.Why = why
+}
+
+// constStringsOfVariadic: the constant strings passed as the variadic argument
+// of a call (f("a", "b") is compiled to a slice of a freshly allocated array).
+func constStringsOfVariadic(cc *ssa.CallCommon) []string {
+	if len(cc.Args) == 0 {
+		return nil
+	}
+	sl, ok := cc.Args[len(cc.Args)-1].(*ssa.Slice)
+	if !ok {
+		return nil
+	}
+	al, ok := sl.X.(*ssa.Alloc)
+	if !ok || al.Referrers() == nil {
+		return nil
+	}
+	var out []string
+	for _, r := range *al.Referrers() {
+		ia, ok := r.(*ssa.IndexAddr)
+		if !ok || ia.Referrers() == nil {
+			continue
+		}
+		for _, r2 := range *ia.Referrers() {
+			if st, ok := r2.(*ssa.Store); ok {
+				if c, ok := st.Val.(*ssa.Const); ok && c.Value != nil && c.Value.Kind() == constant.String {
+					out = append(out, constant.StringVal(c.Value))
+				}
+			}
+		}
+	}
+	return out
 }
